@@ -219,6 +219,7 @@ class Obligation:
         self.goal = goal
         self.where = where
         self.kind = kind
+        self.terms = ()         # extra instantiation terms suggested by a lemma script
         self.status = None      # 'discharged' | 'refuted' | 'unknown'
         self.backend = None
         self.seconds = 0.0
@@ -485,12 +486,13 @@ class Engine:
         """True only if the quantifier-free part of the path condition certainly implies goal"""
         return self.check_ground(list(st.pc) + [z3.Not(goal)], timeout_ms) == z3.unsat
 
-    def oblige(self, st, goal, name, where=''):
+    def oblige(self, st, goal, name, where='', terms=()):
         """record a proof obligation: pc |= goal"""
         if goal is True:
             goal = z3.BoolVal(True)
         ob = Obligation(name, list(self.axioms) + list(self.func_axioms) + list(st.pc), goal,
                         where or "; ".join(st.trace[-6:]))
+        ob.terms = tuple(t.t if hasattr(t, 't') else t for t in terms)
         self.obligations.append(ob)
         return ob
 
